@@ -37,6 +37,7 @@ type checker struct {
 	runsDone        int
 	curPrior        map[int][]int
 	raceReplays     int
+	freshChecked    int
 }
 
 type foundViolation struct {
@@ -169,9 +170,33 @@ func (c *checker) run() int {
 		a := runBatch(c.prop, c.seed, c.tier, indices, workers, []int{1, 4, 16}, "a")
 		b := runBatchV(c.prop, c.seed, c.tier, sub, w2, []int{16, 1, 4}, "b", true)
 		c.collect(a)
+		c.collect(b) // the order variants carry the same expectations
 		c.crossCompare(a, b)
 		c.handleDeaths(a)
 		c.agg.absorb(a, b)
+		// fresh-process pass: a few plans each in a node of its own (alternating between the original
+		// and the variant order), so that whatever is initialised lazily is first used by different
+		// operations; compared with pass A like the variant pass
+		freshEvery := 100
+		if c.tier == "thorough" {
+			freshEvery = 1000
+		}
+		var fresh []int
+		for i := lo; i < hi; i += freshEvery {
+			fresh = append(fresh, i)
+		}
+		for k := 0; k < len(fresh); k += 16 {
+			end := k + 16
+			if end > len(fresh) {
+				end = len(fresh)
+			}
+			part := fresh[k:end]
+			f := runBatchV(c.prop, c.seed, c.tier, part, len(part), []int{4, 1, 16}, "f", (k/16)%2 == 1)
+			c.collect(f)
+			c.crossCompare(a, f)
+			c.agg.absorbExtra(f)
+			c.freshChecked += len(f.results)
+		}
 		if c.prop == "C10" && lo == 0 {
 			c.raceHalf(a)
 		}
